@@ -23,6 +23,7 @@ import IgVerif.Model.Literal
 import IgVerif.Model.EnumVal
 import IgVerif.Model.CharLit
 import IgVerif.Model.SkipScan
+import IgVerif.Model.Expand
 /-! `igdriver <model>`: reads one op per line on stdin, prints one answer per line.
 Byte strings are hex ("-" = empty). -/
 open IgVerif
@@ -659,6 +660,12 @@ def macroStep (_ : Unit) (toks : List String) : IO (Unit × String) := do
   | ["stringify", h] =>
     let src := unhex h
     return ((), s!"wl={b01 (Mac.wellLexed Mac.SState.init src)} {hex (Mac.stringify src)}")
+  | "expand" :: names :: variadic :: body :: args =>
+    -- expand <name,name,…|-> <index of the variadic parameter|-> <body hex> <argument hex>*
+    let ns := if names == "-" then [] else (names.splitOn ",").map unhex
+    let v := variadic.toNat?
+    let r := Exp.expandOnce ns v (unhex body) (args.map (fun a => if a == "-" then [] else unhex a))
+    return ((), if r.isEmpty then "-" else hex r)
   | _ => return ((), "bad-op")
 
 /-! ### export -/
